@@ -11,6 +11,7 @@ Node kinds:
 Conditions are decomposed at && || ! so evaluation order is explicit.
 """
 from .frontend import strip, strip_parens, children
+from .expr import int_value
 
 ATOMIC_MACROS = ('Q_MUTEX_ENTER', 'Q_MUTEX_LEAVE', 'Q_MUTEX_DESTROY')
 
@@ -32,8 +33,9 @@ class Node:
 
 
 class CFG:
-    def __init__(self, func):
+    def __init__(self, func, atomic_macros=True):
         self.func = func
+        self.atomic_macros = atomic_macros
         self.nodes = []
         self.entry = self.new('entry', line=func.line)
         self.exit = self.new('exit', line=func.decl.get('_endline'))
@@ -101,6 +103,10 @@ class CFG:
             return f, t
         n = self.new('cond', e)
         self.link(ins, n)
+        v = int_value(s)
+        if v is not None and not isinstance(v, str):
+            # constant condition (while (true), do {} while (0)): only one branch is feasible
+            return ([(n, 'T')], []) if v else ([], [(n, 'F')])
         return [(n, 'T')], [(n, 'F')]
 
     def expr(self, e, ins):
@@ -113,8 +119,8 @@ class CFG:
         if not s or not isinstance(s, dict) or 'kind' not in s:
             return ins
         k = s['kind']
-        if s.get('_macro') in ATOMIC_MACROS and not s.get('_macro_arg') and k != 'CompoundStmt' \
-                and k.endswith('Stmt'):
+        if self.atomic_macros and s.get('_macro') in ATOMIC_MACROS and not s.get('_macro_arg') \
+                and k != 'CompoundStmt' and k.endswith('Stmt'):
             n = self.new('macro', s, info=(s['_macro'], s))
             self.link(ins, n)
             return [(n, None)]
